@@ -402,6 +402,8 @@ fn main() {
 			&Limits::depth(if thorough { 8 } else { 8 }).wall_secs(300),
 			true,
 		);
+		// both zeros and mixed signs
+		h.go(&AffSys { name: format!("{kind}/affine+range/depth-signed-zeros"), kind, ns: vec![2.max(min), 3.max(min)], v0s: vec![1.0, -0.0], alphabet: vec![0.0, -0.0, -1.0, 1.0], flat: false }, &Limits::depth(if thorough { 7 } else { 6 }).wall_secs(300), true);
 		// every length, deviation-bounded
 		let mut ns: Vec<usize> = (min..=maxn).collect();
 		if !thorough {
